@@ -132,4 +132,6 @@ func TestVerifC21Cross(t *testing.T) {
 			return res[0].Route.HashSlot
 		}},
 	}, c21.Options{CaseBase: 1000, FixedKeys: 6, CountPool: r.N(160, 1200), RandomPairs: r.N(30_000, 1_000_000), ConcurrentPairs: r.N(5_000, 100_000), Goroutines: 4})
+
+	c21RouterHistories(r, 5000)
 }
